@@ -9,8 +9,9 @@
 (*   JetKnown(name)          the jet is specified here                     *)
 (*   JetOut(name, in)        its output bits, or JetFails                  *)
 (* Names are the crate's: <op>_<n> and <op>_<a>_<b> for word sizes up to   *)
-(* 64 (eq also 256), plus verify: 305 of the 368 Core jets.  Arithmetic is *)
-(* on bit sequences (TLC's integers are 32 bits).                          *)
+(* 64 (eq also 256), plus verify, plus the SHA-256, hash-context and lock   *)
+(* parsing jets (Sha256.tla): 325 of the 368 Core jets.  Word arithmetic   *)
+(* is on bit sequences (TLC's integers are 32 bits).                       *)
 (***************************************************************************)
 EXTENDS Integers, Sequences, TLC
 
@@ -24,6 +25,7 @@ XorB(a, b) == [i \in 1..Len(a) |-> (a[i] + b[i]) % 2]
 Hi(x, n) == SubSeq(x, 1, n)                 \* first n bits
 Lo(x, n) == SubSeq(x, Len(x) - n + 1, Len(x))
 Bit(c) == IF c THEN <<1>> ELSE <<0>>
+B8(k) == [i \in 1..8 |-> (k \div (2 ^ (8 - i))) % 2]
 
 \* a + b + cin from the least significant bit: <<carry, sum bits>>
 RECURSIVE AddC(_, _, _, _, _)
@@ -76,7 +78,7 @@ MoreOps == {"full_increment", "full_decrement", "full_multiply", "median", "left
 ParseM(name) ==
   LET hits == {<<op, n>> \in MoreOps \X {8, 16, 32, 64} : Name(op, n) = name} IN
   IF hits = {} THEN <<>> ELSE CHOOSE h \in hits : TRUE
-JetKnown(name) == name = "verify" \/ Parse(name) # <<>> \/ Parse2(name) # <<>> \/ ParseM(name) # <<>>
+JetKnownFlat(name) == name = "verify" \/ Parse(name) # <<>> \/ Parse2(name) # <<>> \/ ParseM(name) # <<>>
 
 OutOf(op, n, x) ==
   LET a == Hi(x, n)  b == Lo(x, n) IN         \* for binary jets x = a ++ b
@@ -159,14 +161,301 @@ OutOfM(op, n, x) ==
              ext(w) == ZerosN(n) \o w IN
          Tail(Add(Tail(Add(Mul(a, b), ext(c), 0)), ext(d), 0))
     [] op = "median" -> Median(SubSeq(x, 1, n), SubSeq(x, n + 1, 2 * n), SubSeq(x, 2 * n + 1, 3 * n))
-JetOut(name, x) ==
+FlatOut(name, x) ==
   IF name = "verify" THEN (IF x = <<1>> THEN <<>> ELSE JetFails)
   ELSE IF Parse(name) # <<>> THEN LET h == Parse(name) IN OutOf(h[1], h[2], x)
   ELSE IF Parse2(name) # <<>> THEN LET h == Parse2(name) IN OutOf2(h[1], h[2], h[3], x)
   ELSE LET h == ParseM(name) IN OutOfM(h[1], h[2], x)
 
+(* ---- hashing and parsing jets; these have sums in their types, so inputs and outputs are in the padded
+        layout of the Bit Machine: a tag bit, then the chosen side behind as many (zero) padding bits as
+        make both sides equally wide ---- *)
+SHA == INSTANCE Sha256
+(* a buffer (2^8)^<2^(n+1) = S(2^8)^(2^n) * ... * S(2^8): the bytes present, largest chunk first, and the bits consumed *)
+RECURSIVE ReadBuf(_, _, _)
+ReadBuf(x, pos, n) ==       \* <<data bits, next position>>
+  IF n < 0 THEN <<<<>>, pos>>
+  ELSE LET w == 8 * (2 ^ n)
+           rest == ReadBuf(x, pos + 1 + w, n - 1)
+       IN <<(IF x[pos] = 1 THEN SubSeq(x, pos + 1, pos + w) ELSE <<>>) \o rest[1], rest[2]>>
+RECURSIVE WriteBuf(_, _)
+WriteBuf(d, n) ==
+  IF n < 0 THEN <<>>
+  ELSE LET w == 8 * (2 ^ n)
+       IN IF w <= Len(d) THEN <<1>> \o SubSeq(d, 1, w) \o WriteBuf(SubSeq(d, w + 1, Len(d)), n - 1)
+          ELSE <<0>> \o ZerosN(w) \o WriteBuf(d, n - 1)
+CtxWidth == 830                                  \* 6 tags + 63 bytes, the 64-bit count of compressed blocks, the midstate
+ReadCtx(x) == LET b == ReadBuf(x, 1, 5)
+              IN [buf |-> b[1], cc |-> SubSeq(x, b[2], b[2] + 63), h |-> SubSeq(x, b[2] + 64, b[2] + 319)]
+WriteCtx(c) == WriteBuf(c.buf, 5) \o c.cc \o c.h
+TooMany(cc) == \E i \in 1..9 : cc[i] = 1         \* 2^55 blocks or more: the byte counter would reach 2^61
+SmallB64(k) == ZerosN(48) \o [i \in 1..16 |-> (k \div (2 ^ (16 - i))) % 2]
+CtxAdd(c, data) ==           \* absorb data: hash whole blocks, keep the tail, count the blocks
+  LET all == c.buf \o data
+      nb == Len(all) \div 512
+      cc2 == Tail(Add(c.cc, SmallB64(nb), 0))
+  IN IF TooMany(c.cc) \/ TooMany(cc2) THEN JetFails
+     ELSE WriteCtx([buf |-> SubSeq(all, 512 * nb + 1, Len(all)), cc |-> cc2, h |-> SHA!Absorb(c.h, all)])
+CtxFinal(c) ==               \* the length in bits is (64 * cc + bytes buffered) * 8
+  IF TooMany(c.cc) THEN JetFails
+  ELSE LET nbytes == Len(c.buf) \div 8
+           len64 == SubSeq(c.cc, 10, 64) \o [i \in 1..6 |-> (nbytes \div (2 ^ (6 - i))) % 2] \o <<0, 0, 0>>
+       IN SHA!Absorb(c.h, SHA!PadTail(c.buf, len64))
+InitCtx == [buf |-> <<>>, cc |-> ZerosN(64), h |-> SHA!IVBits]
+TapDataTag == SHA!Sha256(SHA!HexBits("54617044617461"))                   \* "TapData"
+TapDataCtx == [buf |-> <<>>, cc |-> SmallB64(1), h |-> SHA!CompressBits(SHA!IVBits, TapDataTag \o TapDataTag)]
+CtxAddN(name) ==             \* sha_256_ctx_8_add_<n>: n, or 0
+  LET Try(n) == name = "sha_256_ctx_8_add_" \o ToString(n)
+  IN IF \E k \in 0..9 : Try(2 ^ k) THEN (CHOOSE n \in {2 ^ k : k \in 0..9} : Try(n)) ELSE 0
+HashOps == {"sha_256_iv", "sha_256_block", "sha_256_ctx_8_init", "sha_256_ctx_8_finalize", "sha_256_ctx_8_add_buffer_511",
+            "tapdata_init", "parse_lock", "parse_sequence"}
+JetKnownHash(name) == name \in HashOps \/ CtxAddN(name) > 0
+HashOut(name, x) ==
+  CASE name = "sha_256_iv" -> SHA!IVBits
+    [] name = "sha_256_block" -> SHA!CompressBits(SubSeq(x, 1, 256), SubSeq(x, 257, 768))
+    [] name = "sha_256_ctx_8_init" -> WriteCtx(InitCtx)
+    [] name = "tapdata_init" -> WriteCtx(TapDataCtx)
+    [] name = "sha_256_ctx_8_finalize" -> CtxFinal(ReadCtx(x))
+    [] name = "sha_256_ctx_8_add_buffer_511" -> CtxAdd(ReadCtx(x), ReadBuf(x, CtxWidth + 1, 8)[1])
+    [] name = "parse_lock" ->       \* a height below 500 000 000 on the left, a time on the right
+         <<IF Lt(x, SHA!HexBits("1dcd6500")) THEN 0 ELSE 1>> \o x
+    [] name = "parse_sequence" ->   \* nothing when the disable flag (bit 31) is set; else bit 22 picks time over distance
+         IF x[1] = 1 THEN ZerosN(18) ELSE <<1, x[10]>> \o SubSeq(x, 17, 32)
+    [] OTHER -> CtxAdd(ReadCtx(x), SubSeq(x, CtxWidth + 1, CtxWidth + 8 * CtxAddN(name)))
+
+(* ---- secp256k1: field elements (mod P), scalars (mod N), affine (ge) and Jacobian (gej) points; Secp.tla.
+        Every 256-bit input is first reduced; every output is the reduced representative.  A gej is at infinity
+        iff its z is zero.  ---- *)
+EC == INSTANCE Secp
+Fe(x, i) == EC!FRed(EC!FromBits(SubSeq(x, 256 * (i - 1) + 1, 256 * i)))        \* the i-th 256-bit component, as a field element
+Sc(x, i) == EC!SRed(EC!FromBits(SubSeq(x, 256 * (i - 1) + 1, 256 * i)))
+FB(v) == EC!ToBits(v)
+FM(a, b) == EC!FMul(a, b)
+Odd(v) == v[1] % 2 = 1
+Seven == EC!Small(7)
+Cube(a) == FM(FM(a, a), a)
+Gej(x, i) == [x |-> Fe(x, i), y |-> Fe(x, i + 1), z |-> Fe(x, i + 2)]
+GejB(p) == FB(p.x) \o FB(p.y) \o FB(p.z)
+Inf(p) == p.z = EC!Zero
+GeOnCurve(px, py) == FM(py, py) = EC!FAdd(Cube(px), Seven)
+GejOnCurve(p) == LET z2 == FM(p.z, p.z) IN FM(p.y, p.y) = EC!FAdd(Cube(p.x), FM(Seven, Cube(z2)))      \* y^2 = x^3 + 7 z^6
+FieldOps == {"fe_normalize", "fe_negate", "fe_add", "fe_square", "fe_multiply", "fe_multiply_beta", "fe_square_root", "fe_is_zero", "fe_is_odd",
+             "scalar_normalize", "scalar_negate", "scalar_add", "scalar_square", "scalar_multiply", "scalar_multiply_lambda", "scalar_is_zero",
+             "div_mod_128_64", "ge_negate", "gej_negate", "ge_is_on_curve", "gej_is_on_curve", "gej_is_infinity", "gej_infinity", "gej_rescale",
+             "gej_x_equiv", "gej_y_is_odd", "gej_equiv", "gej_ge_equiv", "decompress"}
+FieldOut(name, x) ==
+  CASE name = "fe_normalize" -> FB(Fe(x, 1))
+    [] name = "fe_negate" -> FB(EC!FNeg(Fe(x, 1)))
+    [] name = "fe_add" -> FB(EC!FAdd(Fe(x, 1), Fe(x, 2)))
+    [] name = "fe_square" -> FB(FM(Fe(x, 1), Fe(x, 1)))
+    [] name = "fe_multiply" -> FB(FM(Fe(x, 1), Fe(x, 2)))
+    [] name = "fe_multiply_beta" -> FB(FM(Fe(x, 1), EC!Beta))
+    [] name = "fe_square_root" -> LET r == EC!FSqrt(Fe(x, 1)) IN IF r = <<>> THEN ZerosN(257) ELSE <<1>> \o FB(r[1])
+    [] name = "fe_is_zero" -> Bit(Fe(x, 1) = EC!Zero)
+    [] name = "fe_is_odd" -> Bit(Odd(Fe(x, 1)))
+    [] name = "scalar_normalize" -> FB(Sc(x, 1))
+    [] name = "scalar_negate" -> FB(EC!SNeg(Sc(x, 1)))
+    [] name = "scalar_add" -> FB(EC!SAdd(Sc(x, 1), Sc(x, 2)))
+    [] name = "scalar_square" -> FB(EC!SMul(Sc(x, 1), Sc(x, 1)))
+    [] name = "scalar_multiply" -> FB(EC!SMul(Sc(x, 1), Sc(x, 2)))
+    [] name = "scalar_multiply_lambda" -> FB(EC!SMul(Sc(x, 1), EC!Lambda))
+    [] name = "scalar_is_zero" -> Bit(Sc(x, 1) = EC!Zero)
+    [] name = "div_mod_128_64" ->       \* defined for a divisor with its top bit set and a quotient that fits; all ones otherwise
+         LET a == SubSeq(x, 1, 128)
+             b == SubSeq(x, 129, 192)
+         IN IF b[1] = 1 /\ Lt(Hi(a, 64), b) THEN LET d == DivMod(a, ZerosN(64) \o b) IN Lo(d[1], 64) \o Lo(d[2], 64)
+            ELSE OnesN(128)
+    [] name = "ge_negate" -> FB(Fe(x, 1)) \o FB(EC!FNeg(Fe(x, 2)))
+    [] name = "gej_negate" -> FB(Fe(x, 1)) \o FB(EC!FNeg(Fe(x, 2))) \o FB(Fe(x, 3))
+    [] name = "ge_is_on_curve" -> Bit(GeOnCurve(Fe(x, 1), Fe(x, 2)))
+    [] name = "gej_is_on_curve" -> Bit(GejOnCurve(Gej(x, 1)))
+    [] name = "gej_is_infinity" -> Bit(Inf(Gej(x, 1)))
+    [] name = "gej_infinity" -> ZerosN(768)
+    [] name = "gej_rescale" -> LET p == Gej(x, 1)
+                                   c == Fe(x, 4)
+                               IN FB(FM(p.x, FM(c, c))) \o FB(FM(p.y, Cube(c))) \o FB(FM(p.z, c))
+    [] name = "gej_x_equiv" -> LET p == Gej(x, 2) IN Bit(~Inf(p) /\ FM(FM(p.z, p.z), Fe(x, 1)) = p.x)
+    [] name = "gej_y_is_odd" -> LET p == Gej(x, 1) IN Bit(~Inf(p) /\ Odd(FM(p.y, Cube(EC!FInv(p.z)))))
+    [] name = "gej_equiv" ->            \* -a + b is the point at infinity, as the addition formula finds it
+         LET a == Gej(x, 1)
+             b == Gej(x, 4)
+         IN Bit(IF Inf(a) THEN Inf(b) ELSE IF Inf(b) THEN FALSE
+                ELSE /\ FM(a.x, FM(b.z, b.z)) = FM(b.x, FM(a.z, a.z))
+                     /\ (FM(EC!FNeg(a.y), Cube(b.z)) # FM(b.y, Cube(a.z)) \/ a.y = EC!Zero))         \* y = 0 doubles to infinity
+    [] name = "gej_ge_equiv" ->
+         LET a == Gej(x, 1)
+         IN Bit(~Inf(a) /\ a.x = FM(Fe(x, 4), FM(a.z, a.z)) /\ (EC!FNeg(a.y) # FM(Fe(x, 5), Cube(a.z)) \/ a.y = EC!Zero))
+    [] name = "decompress" ->            \* a parity bit and x: the point with that x whose y has that parity, if x^3 + 7 is a square
+         LET px == EC!FRed(EC!FromBits(SubSeq(x, 2, 257)))
+             r == EC!FSqrt(EC!FAdd(Cube(px), Seven))
+         IN IF r = <<>> THEN ZerosN(513)
+            ELSE <<1>> \o FB(px) \o FB(IF Odd(r[1]) = (x[1] = 1) THEN r[1] ELSE EC!FNeg(r[1]))
+(* jets specified by a relation between input and output: inverses (unique, so the relation decides the function),
+   normalisation (unique), and the group law, whose Jacobian result is only determined up to the representative *)
+PDouble(p) ==
+  IF Inf(p) \/ p.y = EC!Zero THEN [x |-> EC!Zero, y |-> EC!Zero, z |-> EC!Zero]
+  ELSE LET y2 == FM(p.y, p.y)
+           s == FM(EC!Small(4), FM(p.x, y2))
+           m == FM(EC!Small(3), FM(p.x, p.x))
+           x3 == EC!FSub(FM(m, m), FM(EC!Small(2), s))
+       IN [x |-> x3, y |-> EC!FSub(FM(m, EC!FSub(s, x3)), FM(EC!Small(8), FM(y2, y2))), z |-> FM(EC!Small(2), FM(p.y, p.z))]
+PAdd(a, b) ==
+  IF Inf(a) THEN b ELSE IF Inf(b) THEN a
+  ELSE LET z1z1 == FM(a.z, a.z)
+           z2z2 == FM(b.z, b.z)
+           u1 == FM(a.x, z2z2)
+           u2 == FM(b.x, z1z1)
+           s1 == FM(a.y, FM(b.z, z2z2))
+           s2 == FM(b.y, FM(a.z, z1z1))
+       IN IF u1 = u2 THEN (IF s1 = s2 THEN PDouble(a) ELSE [x |-> EC!Zero, y |-> EC!Zero, z |-> EC!Zero])
+          ELSE LET h == EC!FSub(u2, u1)
+                   r == EC!FSub(s2, s1)
+                   h2 == FM(h, h)
+                   h3 == FM(h, h2)
+                   v == FM(u1, h2)
+                   x3 == EC!FSub(EC!FSub(FM(r, r), h3), FM(EC!Small(2), v))
+               IN [x |-> x3, y |-> EC!FSub(FM(r, EC!FSub(v, x3)), FM(s1, h3)), z |-> FM(h, FM(a.z, b.z))]
+SamePoint(a, b) ==
+  IF Inf(a) \/ Inf(b) THEN Inf(a) /\ Inf(b)
+  ELSE /\ FM(a.x, FM(b.z, b.z)) = FM(b.x, FM(a.z, a.z))
+       /\ FM(a.y, Cube(b.z)) = FM(b.y, Cube(a.z))
+Valid(p) == Inf(p) \/ GejOnCurve(p)
+Affine(x, i) == [x |-> Fe(x, i), y |-> Fe(x, i + 1), z |-> EC!Small(1)]
+GPoint == [x |-> EC!HexL("79be667ef9dcbbac55a06295ce870b07029bfcdb2dce28d959f2815b16f81798"),
+           y |-> EC!HexL("483ada7726a3c4655da4fbfc0e1108a8fd17b448a68554199c47d08ffb10d4b8"), z |-> EC!Small(1)]
+InfPoint == [x |-> EC!Zero, y |-> EC!Zero, z |-> EC!Zero]
+RECURSIVE SMulFrom(_, _, _, _)
+SMulFrom(k, p, i, acc) ==        \* double and add over the bits of k from the i-th; leading zero bits cost nothing
+  IF i > Len(k) THEN acc
+  ELSE LET d == IF Inf(acc) THEN acc ELSE PDouble(acc) IN SMulFrom(k, p, i + 1, IF k[i] = 1 THEN PAdd(d, p) ELSE d)
+ScalarMul(k, p) == SMulFrom(FB(k), p, 1, InfPoint)
+IsCanonP(bits) == ~EC!Ge(EC!FromBits(bits), EC!P)
+(* compressed points: the point with that x (reduced) and a y of the given parity, if x^3 + 7 is a square *)
+LiftX(xb, odd) ==           \* <<point>> or <<>>
+  LET px == EC!FRed(EC!FromBits(xb))
+      r == EC!FSqrt(EC!FAdd(Cube(px), Seven))
+  IN IF r = <<>> THEN <<>> ELSE <<[x |-> px, y |-> (IF Odd(r[1]) = odd THEN r[1] ELSE EC!FNeg(r[1])), z |-> EC!One]>>
+PNeg(p) == [p EXCEPT !.y = EC!FNeg(p.y)]
+TagHash(hex) == SHA!Sha256(SHA!HexBits(hex))
+ChallengeTag == TagHash("424950303334302f6368616c6c656e6765")                  \* "BIP0340/challenge"
+SignatureTag == TagHash("53696d706c69636974791f5369676e6174757265")          \* "Simplicity", 0x1f, "Signature"
+(* BIP-340 verification of a 64-byte signature (r, s) of a 32-byte message under an x-only key *)
+Bip340(pkb, msgb, sigb) ==
+  LET rb == SubSeq(sigb, 1, 256)
+      sb == SubSeq(sigb, 257, 512)
+      pk == IF IsCanonP(pkb) THEN LiftX(pkb, FALSE) ELSE <<>>
+  IN /\ pk # <<>> /\ IsCanonP(rb) /\ ~EC!Ge(EC!FromBits(sb), EC!N)
+     /\ LET e == EC!SRed(EC!FromBits(SHA!Sha256(ChallengeTag \o ChallengeTag \o rb \o pkb \o msgb)))
+            rr == PAdd(ScalarMul(EC!FromBits(sb), GPoint), PNeg(ScalarMul(e, pk[1])))
+        IN /\ ~Inf(rr)
+           /\ FM(EC!FromBits(rb), FM(rr.z, rr.z)) = rr.x
+           /\ ~Odd(FM(rr.y, Cube(EC!FInv(rr.z))))
+TapTag(hex) == LET h == TagHash(hex) IN h \o h
+(* build_taptweak: the x-only key lift_x(pk) + t * G for t = the tagged hash of the key and the 32-byte argument;
+   a relation, because the specification does not divide by z *)
+TapTweakOk(x, out) ==
+  LET pkb == SubSeq(x, 1, 256)
+      t == EC!FromBits(SHA!Sha256(TapTag("546170547765616b2f656c656d656e7473") \o pkb \o SubSeq(x, 257, 512)))
+      pk == IF IsCanonP(pkb) THEN LiftX(pkb, FALSE) ELSE <<>>
+  IN IF pk = <<>> \/ EC!Ge(t, EC!N) THEN out = JetFails
+     ELSE LET q == PAdd(pk[1], ScalarMul(t, GPoint))
+          IN IF Inf(q) THEN out = JetFails
+             ELSE out # JetFails /\ IsCanonP(out) /\ FM(Fe(out, 1), FM(q.z, q.z)) = q.x
+RelOps == {"fe_invert", "scalar_invert", "gej_normalize", "gej_double", "gej_add", "gej_ge_add", "gej_ge_add_ex", "generate", "linear_combination_1",
+           "scale", "linear_verify_1", "point_verify_1", "bip_0340_verify", "check_sig_verify", "build_taptweak"}
+JetKnownRel(name) == name \in RelOps
+IsCanon(bits, m) == ~EC!Ge(EC!FromBits(bits), m)              \* the reduced representative
+RelOk(name, x, out) ==            \* out: the output bits, or JetFails
+  CASE name = "fe_invert" ->
+         /\ out # JetFails /\ IsCanon(out, EC!P)
+         /\ LET a == Fe(x, 1) IN IF a = EC!Zero THEN Fe(out, 1) = EC!Zero ELSE FM(a, Fe(out, 1)) = EC!Small(1)
+    [] name = "scalar_invert" ->
+         /\ out # JetFails /\ IsCanon(out, EC!N)
+         /\ LET a == Sc(x, 1) IN IF a = EC!Zero THEN Sc(out, 1) = EC!Zero ELSE EC!SMul(a, Sc(out, 1)) = EC!Small(1)
+    [] name = "gej_normalize" ->     \* nothing for the point at infinity, else the affine (x / z^2, y / z^3)
+         LET p == Gej(x, 1)
+         IN /\ out # JetFails
+            /\ IF Inf(p) THEN out = ZerosN(513)
+               ELSE /\ out[1] = 1 /\ IsCanon(SubSeq(out, 2, 257), EC!P) /\ IsCanon(SubSeq(out, 258, 513), EC!P)
+                    /\ FM(Fe(Tail(out), 1), FM(p.z, p.z)) = p.x /\ FM(Fe(Tail(out), 2), Cube(p.z)) = p.y
+    [] name = "gej_double" -> LET p == Gej(x, 1) IN out # JetFails /\ (Valid(p) => SamePoint(Gej(out, 1), PDouble(p)))
+    [] name = "gej_add" -> LET a == Gej(x, 1)
+                               b == Gej(x, 4)
+                           IN out # JetFails /\ ((Valid(a) /\ Valid(b)) => SamePoint(Gej(out, 1), PAdd(a, b)))
+    [] name = "gej_ge_add" -> LET a == Gej(x, 1)
+                                  b == Affine(x, 4)
+                              IN out # JetFails /\ ((Valid(a) /\ Valid(b)) => SamePoint(Gej(out, 1), PAdd(a, b)))
+    [] name = "gej_ge_add_ex" ->      \* also returns the ratio of the z coordinates when neither the input nor the sum is at infinity
+         LET a == Gej(x, 1)
+             b == Affine(x, 4)
+             r == Gej(out, 2)
+         IN out # JetFails /\ ((Valid(a) /\ Valid(b)) =>
+                                 /\ SamePoint(r, PAdd(a, b))
+                                 /\ (~Inf(a) /\ ~Inf(r)) => FM(a.z, Fe(out, 1)) = r.z)
+    [] name = "generate" -> out # JetFails /\ SamePoint(Gej(out, 1), ScalarMul(Sc(x, 1), GPoint))
+    [] name = "linear_combination_1" ->      \* na * A + ng * G; fails unless A satisfies the curve equation
+         LET a == Gej(x, 2)
+         IN IF ~GejOnCurve(a) THEN out = JetFails
+            ELSE out # JetFails /\ SamePoint(Gej(out, 1), PAdd(ScalarMul(Sc(x, 1), a), ScalarMul(Sc(x, 5), GPoint)))
+    [] name = "build_taptweak" -> TapTweakOk(x, out)
+    [] name = "scale" ->                   \* na * A; fails unless A satisfies the curve equation
+         LET a == Gej(x, 2)
+         IN IF ~GejOnCurve(a) THEN out = JetFails ELSE out # JetFails /\ SamePoint(Gej(out, 1), ScalarMul(Sc(x, 1), a))
+    [] name = "linear_verify_1" ->         \* na * A + ng * G = B for affine A, B on the curve, or the jet fails
+         LET a == Affine(x, 2)
+             b == Affine(x, 5)
+             ok == /\ GejOnCurve(a) /\ GejOnCurve(b)
+                   /\ SamePoint(PAdd(ScalarMul(Sc(x, 1), a), ScalarMul(Sc(x, 4), GPoint)), b)
+         IN out = (IF ok THEN <<>> ELSE JetFails)
+    [] name = "point_verify_1" ->          \* the same for compressed points (a parity bit and x)
+         LET a == LiftX(SubSeq(x, 258, 513), x[257] = 1)
+             b == LiftX(SubSeq(x, 771, 1026), x[770] = 1)
+             ok == /\ a # <<>> /\ b # <<>>
+                   /\ SamePoint(PAdd(ScalarMul(Sc(x, 1), a[1]), ScalarMul(EC!SRed(EC!FromBits(SubSeq(x, 514, 769))), GPoint)), b[1])
+         IN out = (IF ok THEN <<>> ELSE JetFails)
+    [] name = "bip_0340_verify" -> out = (IF Bip340(SubSeq(x, 1, 256), SubSeq(x, 257, 512), SubSeq(x, 513, 1024)) THEN <<>> ELSE JetFails)
+    [] name = "check_sig_verify" ->        \* the 64-byte message is first hashed under Simplicity's signature tag
+         out = (IF Bip340(SubSeq(x, 1, 256), SHA!Sha256(SignatureTag \o SignatureTag \o SubSeq(x, 257, 768)), SubSeq(x, 769, 1280)) THEN <<>> ELSE JetFails)
+
+(* ---- Elements jets that do not read the transaction: hashing of transaction parts into a context, issuance
+        and taproot arithmetic (elementsJets.c, elements/ops.c).  Confidential values are sums in the padded
+        layout: Conf A = (parity bit * 2^256) + A behind one tag bit. ---- *)
+ElementsOps == {"outpoint_hash", "asset_amount_hash", "nonce_hash", "annex_hash", "calculate_issuance_entropy", "calculate_asset",
+                "calculate_explicit_token", "calculate_confidential_token", "lbtc_asset", "build_tapleaf_simplicity", "build_tapbranch"}
+RECURSIVE RevBytes(_)
+RevBytes(b) == IF b = <<>> THEN <<>> ELSE RevBytes(SubSeq(b, 9, Len(b))) \o SubSeq(b, 1, 8)        \* little-endian byte order
+ElementsOut(name, x) ==
+  LET at(p, n) == SubSeq(x, p, p + n - 1)
+      C == CtxWidth
+  IN
+  CASE name = "outpoint_hash" ->          \* an optional pegin parent hash (flag byte first), then the outpoint
+         CtxAdd(ReadCtx(x), (IF x[C + 1] = 1 THEN B8(1) \o at(C + 2, 256) ELSE B8(0)) \o at(C + 258, 288))
+    [] name = "annex_hash" -> CtxAdd(ReadCtx(x), IF x[C + 1] = 1 THEN B8(1) \o at(C + 2, 256) ELSE B8(0))
+    [] name = "nonce_hash" ->             \* no nonce: 00; explicit: 01; confidential: 02 / 03 by parity
+         CtxAdd(ReadCtx(x), IF x[C + 1] = 0 THEN B8(0)
+                            ELSE (IF x[C + 2] = 1 THEN B8(1) ELSE B8(2 + x[C + 3])) \o at(C + 4, 256))
+    [] name = "asset_amount_hash" ->      \* asset: 01 explicit, 0a / 0b confidential; amount: 01 explicit (8 bytes), 08 / 09 confidential
+         LET a == C + 1
+             m == C + 259
+         IN CtxAdd(ReadCtx(x), (IF x[a] = 1 THEN B8(1) ELSE B8(10 + x[a + 1])) \o at(a + 2, 256)
+                               \o (IF x[m] = 1 THEN B8(1) \o at(m + 194, 64) ELSE B8(8 + x[m + 1]) \o at(m + 2, 256)))
+    [] name = "calculate_issuance_entropy" ->     \* the double hash of the outpoint (index little-endian) and the contract hash, compressed once
+         SHA!CompressBits(SHA!IVBits, SHA!Sha256(SHA!Sha256(at(1, 256) \o RevBytes(at(257, 32)))) \o at(289, 256))
+    [] name = "calculate_asset" -> SHA!CompressBits(SHA!IVBits, at(1, 256) \o ZerosN(256))
+    [] name = "calculate_explicit_token" -> SHA!CompressBits(SHA!IVBits, at(1, 256) \o B8(1) \o ZerosN(248))
+    [] name = "calculate_confidential_token" -> SHA!CompressBits(SHA!IVBits, at(1, 256) \o B8(2) \o ZerosN(248))
+    [] name = "lbtc_asset" -> SHA!HexBits("6d521c38ec1ea15734ae22b7c46064412829c0d0579f0a713d1c04ede979026f")
+    [] name = "build_tapleaf_simplicity" ->       \* leaf version 0xbe, a 32-byte script (the commitment root)
+         SHA!Sha256(TapTag("5461704c6561662f656c656d656e7473") \o B8(190) \o B8(32) \o at(1, 256))
+    [] name = "build_tapbranch" ->                \* the two children in lexicographic order
+         LET a == at(1, 256)
+             b == at(257, 256)
+         IN SHA!Sha256(TapTag("5461704272616e63682f656c656d656e7473") \o (IF Lt(a, b) THEN a \o b ELSE b \o a))
+JetKnown(name) == JetKnownFlat(name) \/ JetKnownHash(name) \/ name \in FieldOps \/ name \in ElementsOps
+JetOut(name, x) == IF JetKnownHash(name) THEN HashOut(name, x) ELSE IF name \in FieldOps THEN FieldOut(name, x)
+                   ELSE IF name \in ElementsOps THEN ElementsOut(name, x) ELSE FlatOut(name, x)
+
 (* ---- sanity of the definitions themselves (evaluated once by TLC) ---- *)
-B8(k) == [i \in 1..8 |-> (k \div (2 ^ (8 - i))) % 2]
 ASSUME \A x \in {0, 1, 7, 128, 200, 255} : \A y \in {0, 1, 9, 127, 255} :
    /\ Val(Add(B8(x), B8(y), 0)) = x + y
    /\ Val(Tail(Sub(B8(x), B8(y), 0))) = (x - y + 256) % 256 /\ Sub(B8(x), B8(y), 0)[1] = (IF x < y THEN 1 ELSE 0)
@@ -180,6 +469,14 @@ ASSUME \A x \in {0, 1, 7, 100, 255} : \A y \in {1, 2, 7, 16, 255} :
    /\ JetOut("divides_8", B8(y) \o B8(x)) = Bit((x % y) = 0)
 ASSUME JetOut("left_shift_8", <<0,0,1,1>> \o B8(255)) = B8(248) /\ JetOut("right_shift_with_8", <<1>> \o <<0,0,1,0>> \o B8(0)) = B8(192)
 ASSUME JetOut("left_rotate_8", <<1,0,0,1>> \o B8(129)) = B8(3) /\ JetOut("right_rotate_8", <<0,0,0,1>> \o B8(129)) = B8(192)
-ASSUME JetKnown("leftmost_16_4") /\ JetKnown("right_extend_8_64") /\ JetKnown("full_multiply_64") /\ JetKnown("left_shift_8") /\ ~JetKnown("div_mod_128_64")
-ASSUME JetKnown("add_32") /\ JetKnown("eq_256") /\ ~JetKnown("all_1") /\ JetKnown("xor_xor_1") /\ ~JetKnown("add_1") /\ ~JetKnown("sha_256_block") /\ JetKnown("verify")
+ASSUME JetOut("sha_256_ctx_8_finalize", JetOut("sha_256_ctx_8_add_2", JetOut("sha_256_ctx_8_add_1", JetOut("sha_256_ctx_8_init", <<>>) \o B8(97)) \o B8(98) \o B8(99)))
+         = SHA!HexBits("ba7816bf8f01cfea414140de5dae2223b00361a396177a9cb410ff61f20015ad")
+ASSUME JetOut("parse_lock", SHA!HexBits("1dcd6500")) = <<1>> \o SHA!HexBits("1dcd6500") /\ JetOut("parse_lock", SHA!HexBits("1dcd64ff")) = <<0>> \o SHA!HexBits("1dcd64ff")
+ASSUME JetOut("parse_sequence", SHA!HexBits("00400005")) = <<1, 1>> \o SHA!HexBits("0005") /\ JetOut("parse_sequence", SHA!HexBits("80400005")) = ZerosN(18)
+ASSUME Len(JetOut("tapdata_init", <<>>)) = CtxWidth
+ASSUME GeOnCurve(GPoint.x, GPoint.y) /\ SamePoint(PAdd(GPoint, GPoint), PDouble(GPoint)) /\ SamePoint(ScalarMul(EC!Small(3), GPoint), PAdd(PDouble(GPoint), GPoint))
+ASSUME GejOnCurve(ScalarMul(EC!Small(5), GPoint)) /\ Inf(PAdd(GPoint, [GPoint EXCEPT !.y = EC!FNeg(GPoint.y)]))
+ASSUME JetOut("div_mod_128_64", ZerosN(63) \o <<1>> \o ZerosN(64) \o <<1>> \o ZerosN(62) \o <<1>>) = ZerosN(63) \o <<1>> \o SHA!HexBits("7fffffffffffffff")
+ASSUME JetKnown("leftmost_16_4") /\ JetKnown("right_extend_8_64") /\ JetKnown("full_multiply_64") /\ JetKnown("left_shift_8") /\ ~JetKnownFlat("div_mod_128_64") /\ JetKnown("div_mod_128_64")
+ASSUME JetKnown("add_32") /\ JetKnown("eq_256") /\ ~JetKnown("all_1") /\ JetKnown("xor_xor_1") /\ ~JetKnown("add_1") /\ JetKnown("sha_256_block") /\ ~JetKnownFlat("sha_256_block") /\ JetKnown("verify") /\ JetKnown("sha_256_ctx_8_add_512") /\ ~JetKnown("sha_256_ctx_8_add_3") /\ JetKnown("fe_add") /\ JetKnownRel("fe_invert") /\ ~JetKnown("fe_invert") /\ ~JetKnown("bip_0340_verify")
 =============================================================================
